@@ -8,6 +8,8 @@ import (
 	"go.nanomsg.org/mangos/v3"
 	"go.nanomsg.org/mangos/v3/protocol/pair"
 	"go.nanomsg.org/mangos/v3/protocol/xpub"
+	"go.nanomsg.org/mangos/v3/protocol/xsub"
+	_ "go.nanomsg.org/mangos/v3/transport/inproc"
 	"go.nanomsg.org/mangos/v3/vh/c13"
 	"go.nanomsg.org/mangos/v3/vh/kit"
 	"go.nanomsg.org/mangos/v3/vh/vt"
@@ -47,6 +49,7 @@ func init() {
 			{Name: "tcp-handshakes-aborted-then-peer", Mode: "enum", Reset: kit.ResetGlobals, Body: c13.TCPAborted},
 			{Name: "backoff-reset-when-lost-inside-the-attached-callback", Mode: "enum", Reset: kit.ResetGlobals, Body: lostInsideCallback, NeedCounters: []string{"backoff-was-reset"}},
 			{Name: "socket-with-several-dialers-and-listeners-closed", Mode: "enum", Reset: kit.ResetGlobals, Body: SeveralEndpointsClosed, NeedCounters: []string{"three-or-more-dialers-all-stopped"}},
+			{Name: "inproc-listener-restarts-while-a-dial-attempt-waits", Mode: "enum", Reset: kit.ResetGlobals, Body: InprocListenerRestarts, NeedCounters: []string{"reconnected-to-the-new-listener"}},
 			{Name: "socket-close-vs-new-dialer", Mode: "sched", Bound: map[string]int{"quick": 2, "thorough": 3}[tier], Reset: kit.ResetGlobals, Body: closeVsNewDialer},
 		}
 	})
@@ -641,6 +644,119 @@ func SeveralEndpointsClosed() {
 		kit.Count("three-or-more-dialers-all-stopped")
 	}
 	kit.Observe("nd=%d nl=%d conn=%v own=%d", nd, nl, connected, own)
+}
+
+// InprocListenerRestarts: a background dialer's attempt is waiting for an inproc listener whose
+// accept loop is busy (held in the Attaching callback of another connection) - it was started that
+// way, or it lost its connection and is redialling.  The listening socket is closed and (after 0-3
+// reconnect intervals) a new socket listens on the same address: the dialer connects to it within
+// one reconnect interval and traffic flows.  The cycle is run one to three times.
+func InprocListenerRestarts() {
+	cycles := 1 + kit.ChooseFree(3)
+	wait := kit.ChooseFree(4)
+	hadConn := kit.ChooseFree(2) == 1
+	const addr = "inproc://c14-restart"
+	rt := 100 * time.Millisecond
+	d, _ := xsub.NewSocket()
+	_ = d.SetOption(mangos.OptionReconnectTime, rt)
+	_ = d.SetOption(mangos.OptionMaxReconnectTime, rt)
+	_ = d.SetOption(mangos.OptionDialAsynch, true)
+	attached := 0
+	d.SetPipeEventHook(func(ev mangos.PipeEvent, p mangos.Pipe) {
+		if ev == mangos.PipeEventAttached {
+			attached++
+		}
+	})
+	type lst struct {
+		s       mangos.Socket
+		release chan struct{}
+		hold    bool
+		pipes   []mangos.Pipe
+	}
+	newL := func(hold bool) *lst {
+		l := &lst{release: make(chan struct{}), hold: hold}
+		l.s, _ = xpub.NewSocket()
+		l.s.SetPipeEventHook(func(ev mangos.PipeEvent, p mangos.Pipe) {
+			if ev == mangos.PipeEventAttaching && l.hold {
+				l.hold = false
+				<-l.release
+			}
+			if ev == mangos.PipeEventAttached {
+				l.pipes = append(l.pipes, p)
+			}
+		})
+		if err := l.s.Listen(addr); err != nil {
+			kit.Failf("setup", "Listen: %s", kit.ErrName(err))
+		}
+		return l
+	}
+	l := newL(!hadConn)
+	if hadConn {
+		// the dialer connects first; then the accept loop becomes busy and the dialer loses its connection
+		if err := d.Dial(addr); err != nil {
+			kit.Failf("setup", "Dial: %s", kit.ErrName(err))
+		}
+		kit.Quiesce()
+		if attached != 1 {
+			kit.Failf("setup", "dialer not attached")
+		}
+	}
+	started := hadConn
+	for c := 0; c < cycles; c++ {
+		// somebody else connects and the accept loop is held in its Attaching callback
+		l.hold = true
+		other, _ := xsub.NewSocket()
+		oc := kit.Start("Dial-other", func() (interface{}, error) { return nil, other.Dial(addr) })
+		kit.Quiesce()
+		if !oc.Done() || oc.Err != nil {
+			kit.Failf("setup", "the other subscriber's Dial: done=%v %s", oc.Done(), kit.ErrName(oc.Err))
+		}
+		if !started {
+			if err := d.Dial(addr); err != nil {
+				kit.Failf("setup", "asynchronous Dial: %s", kit.ErrName(err))
+			}
+			started = true
+		} else {
+			// the dialer's connection is lost (the listening side closes it): it redials, and that
+			// attempt waits for the accept loop
+			if len(l.pipes) == 0 {
+				kit.Failf("setup", "no connection of the dialer on the listening side")
+			}
+			dp := l.pipes[0]
+			kit.Must("Pipe.Close", func() { _ = dp.Close() })
+			kit.Quiesce()
+		}
+		kit.Sleep(rt)
+		kit.Quiesce()
+		// the listening socket goes away while the attempt waits
+		cl := kit.Start("Close-listener", func() (interface{}, error) { return nil, l.s.Close() })
+		kit.Quiesce()
+		close(l.release)
+		kit.Quiesce()
+		if !cl.Done() {
+			kit.Failf("close-blocked:inproc-listener", "Close of the listening socket did not return")
+		}
+		kit.Must("Close-other", func() { _ = other.Close() })
+		kit.Sleep(time.Duration(wait) * rt)
+		kit.Quiesce()
+		before := attached
+		l = newL(false)
+		kit.Sleep(rt + time.Millisecond)
+		kit.Quiesce()
+		if attached != before+1 {
+			kit.Failf("dialer-did-not-reconnect:inproc", "cycle %d: the listener the dialer's attempt was waiting for went away, a new socket has been listening on the address for a full reconnect interval (%v): the dialer has made %d new connection(s), want 1", c+1, rt, attached-before)
+		}
+		pc := kit.Start("Send", func() (interface{}, error) { return nil, l.s.Send([]byte(fmt.Sprintf("hello-%d", c))) })
+		kit.Quiesce()
+		rc := kit.Start("Recv", func() (interface{}, error) { b, err := kit.Recv(d); return string(b), err })
+		kit.Quiesce()
+		if !pc.Done() || pc.Err != nil || !rc.Done() || rc.Err != nil || rc.Val.(string) != fmt.Sprintf("hello-%d", c) {
+			kit.Failf("no-traffic-after-reconnect:inproc", "cycle %d: publication after the reconnect: Send done=%v, Recv done=%v %s %q", c+1, pc.Done(), rc.Done(), kit.ErrName(rc.Err), rc.Val)
+		}
+		kit.Count("reconnected-to-the-new-listener")
+	}
+	kit.Observe("cycles=%d wait=%d had=%v", cycles, wait, hadConn)
+	kit.Must("Close", func() { _ = d.Close(); _ = l.s.Close() })
 }
 
 // protocolRefusal: the transport connection succeeds but the protocol refuses the pipe (a PAIR
